@@ -42,6 +42,8 @@ import itertools
 import json
 import logging
 import multiprocessing
+import os
+import signal
 import socket
 import time
 from contextlib import suppress
@@ -299,14 +301,16 @@ class Scheduler:
             return
 
         # The process may exit on its own at any moment; signalling a process
-        # that is already gone raises ProcessLookupError.
+        # that is already gone raises ProcessLookupError. The script runs in its
+        # own process group (see try_handle_task), so signal the whole group:
+        # killing only the shell would leave the commands it started running.
         with suppress(ProcessLookupError):
-            proc.kill()
+            os.killpg(proc.pid, signal.SIGKILL)
         await asyncio.sleep(1)
         if proc.returncode is None:
             await asyncio.sleep(10)
             with suppress(ProcessLookupError):
-                proc.terminate()
+                os.killpg(proc.pid, signal.SIGTERM)
         await proc.wait()
 
     async def try_handle_task(self, tid, name, script, working_dir, time_limit, deps):
@@ -332,6 +336,7 @@ class Scheduler:
                 stdout=asyncio.subprocess.PIPE,
                 stderr=asyncio.subprocess.PIPE,
                 cwd=working_dir,
+                start_new_session=True,
             )
             try:
                 logger.debug("task starting")
